@@ -178,9 +178,21 @@ func c03Structured(c *mc.Ctx, th bool) {
 			call(e.family, b, e.t, e.name+" with "+desc)
 			return true
 		})
-		if th {
-			// all pairs of perturbations at two different marks (deviation bound 2 on the input), boundary values only
+	}
+	c.Done(fmt.Sprintf("every prefix and every single structural perturbation (type bytes x 256, sizes x 14, ids x 5) of %d valid encodings", len(set)))
+	if th {
+		// all pairs of perturbations at two different marks (deviation bound 2 on the input), boundary values only;
+		// sharded per (encoding, first mark) so that the big encodings spread over all workers
+		for i := range set {
+			e := &set[i]
 			for a := range e.marks {
+				if !c.Mine() {
+					continue
+				}
+				if c.Expired() {
+					c.Incomplete("pairs of perturbations: deadline")
+					return
+				}
 				gen.Perturb(e.enc, e.marks[a:a+1], false, func(b1 []byte, d1 string) bool {
 					cp := append([]byte{}, b1...)
 					gen.Perturb(cp, e.marks[a+1:], false, func(b2 []byte, d2 string) bool {
@@ -191,8 +203,8 @@ func c03Structured(c *mc.Ctx, th bool) {
 				})
 			}
 		}
+		c.Done(fmt.Sprintf("all pairs of boundary-value perturbations at two different structural positions of %d valid encodings", len(set)))
 	}
-	c.Done(fmt.Sprintf("every prefix and every single structural perturbation (type bytes x 256, sizes x 14, ids x 5) of %d valid encodings", len(set)))
 	// containers whose element count needs 16 bits and more: well-formed, every perturbation of the header, sampled cuts
 	for _, n := range []int{32767, 32768, 32769, 65535, 65536} {
 		for shape := 0; shape < 3; shape++ {
